@@ -208,6 +208,14 @@ def json_text(v):
     return json.dumps(v, indent=None)
 
 
+def line_kind(line):
+    """0 blank (only blanks, tabs, CR, LF; at least one), 1 starts with '%', 2 anything else."""
+    import re
+    if re.fullmatch('[ \t\r\n]+', line):
+        return 0
+    return 1 if line[:1] == '%' else 2
+
+
 def bytes_seq(b):
     """A bytes value as a list of ints."""
     return list(b)
